@@ -6,13 +6,13 @@ instruction; the simulator contributes state reach and the reference-model oracl
 """
 import hashlib
 
-from . import gen_lock, lockstep
+from . import gen_lock, lockstep, exhaust
 from .harness import new_result, fail, bump
 
 PROP = 'C05'
 RUNS = {'quick': 120000, 'thorough': 3000000}
 BUDGET_S = {'quick': 150, 'thorough': 2400}
-CHUNK = 400
+CHUNK = 100
 PROPS = {'C05'}
 REPLICAS = ['py', 'c', 'pycmio', 'ccmio']
 
@@ -100,6 +100,9 @@ def run_regsweep(scn):
     return res
 
 def gen(rng, tier, index):
+    if index < len(exhaust.TEMPLATES) * 4:
+        # the first scenarios of every batch are the exhaustive 8-bit table sweeps: every template chunk on every engine
+        return {'kind': 'exhaust', 'template': list(exhaust.TEMPLATES[index // 4]), 'engine': REPLICAS[index % 4], 'machine': '48K'}
     if index % 5 == 4:
         return gen_regsweep(rng, tier, index // 5)
     index = index - index // 5
@@ -112,7 +115,20 @@ def gen(rng, tier, index):
         scn = gen_lock.gen_wprog(rng, tier, index, rep)
     return _force_tracer_on_128k(scn)
 
+def run_exhaust(scn):
+    res = new_result()
+    bad, n = exhaust.run(tuple(scn['template']), [scn['engine']], True, lambda vc, d: (vc, d))
+    bump(res, 'events', n)
+    bump(res, 'table_entries_executed', n)
+    if bad:
+        return fail(res, bad[0], bad[1])
+    res['sigs'] = ['exhaust|%s|%s' % ('-'.join(str(x) for x in scn['template']), scn['engine'])]
+    res['digest'] = hashlib.sha256(('%s|%d' % (scn['template'], n)).encode()).hexdigest()
+    return res
+
 def run(scn):
+    if scn['kind'] == 'exhaust':
+        return run_exhaust(scn)
     if scn['kind'] == 'regsweep':
         return run_regsweep(scn)
     res = new_result()
@@ -126,13 +142,13 @@ def run(scn):
     return res
 
 def sample(scn, res):
-    if scn['kind'] == 'regsweep':
+    if scn['kind'] in ('regsweep', 'exhaust'):
         return scn
     return {'kind': scn['kind'], 'machine': scn['machine'], 'slot': scn.get('slot'), 'steps': scn['steps'], 'ints': scn['ints'],
             'regs': scn['regs'], 'tracer': scn['tracer'], 'patches': scn['mem']['patches'][-1:]}
 
 def shrink_candidates(scn):
-    if scn['kind'] == 'regsweep':
+    if scn['kind'] in ('regsweep', 'exhaust'):
         return []
     return gen_lock.shrink_candidates(scn)
 
